@@ -43,6 +43,7 @@ use super::error::verify_range;
 use super::error::verify_true;
 use super::error::EncodeError;
 use super::error::Verified;
+use super::error::VerifyError;
 use super::lpc;
 #[cfg(feature = "par")]
 use super::par;
@@ -587,6 +588,25 @@ pub fn encode_fixed_size_frame(
     frame_number: usize,
     stream_info: &StreamInfo,
 ) -> Result<Frame, EncodeError> {
+    Ok(encode_fixed_size_frame_impl(
+        config,
+        framebuf,
+        frame_number,
+        stream_info,
+    )?)
+}
+
+/// Implementation of [`encode_fixed_size_frame`] with its precise error type.
+///
+/// All failures of frame encoding are verification failures of the arguments.
+/// Unlike `EncodeError`, `VerifyError` can be sent across threads, so the
+/// multi-thread encoder uses this function to report failures of workers.
+pub(crate) fn encode_fixed_size_frame_impl(
+    config: &Verified<config::Encoder>,
+    framebuf: &FrameBuf,
+    frame_number: usize,
+    stream_info: &StreamInfo,
+) -> Result<Frame, VerifyError> {
     verify_range!(
         "encode_fixed_size_frame (frame_number)",
         frame_number,
